@@ -121,10 +121,17 @@ type knownValue struct {
 func (c *Classifier) AddValue(key, value string) error {
 	c.muValues.Lock()
 	defer c.muValues.Unlock()
+	if verifOn {
+		verifEmit("lock", "mu", "values", "mode", "W")
+		defer verifEmit("unlock", "mu", "values", "mode", "W")
+	}
 	if _, ok := c.values[key]; ok {
 		return fmt.Errorf("value already registered with key %q", key)
 	}
 	norm := c.normalize(value)
+	if verifOn {
+		verifEmit("acc", "loc", "values", "kind", "W")
+	}
 	c.values[key] = &knownValue{
 		key:             key,
 		normalizedValue: norm,
@@ -138,6 +145,12 @@ func (c *Classifier) AddValue(key, value string) error {
 func (c *Classifier) AddPrecomputedValue(key, value string, set *searchset.SearchSet) error {
 	c.muValues.Lock()
 	defer c.muValues.Unlock()
+	if verifOn {
+		verifEmit("lock", "mu", "values", "mode", "W")
+		defer verifEmit("unlock", "mu", "values", "mode", "W")
+		verifEmit("acc", "loc", "values", "kind", "W")
+		verifEmit("acc", "loc", "set:"+key, "kind", "W")
+	}
 	if _, ok := c.values[key]; ok {
 		return fmt.Errorf("value already registered with key %q", key)
 	}
@@ -291,6 +304,10 @@ func (c *Classifier) nearestMatch(unknown string) *pq.Queue {
 	}
 
 	c.muValues.RLock()
+	if verifOn {
+		verifEmit("lock", "mu", "values", "mode", "R")
+		verifEmit("acc", "loc", "values", "kind", "R")
+	}
 	var likely likelyMatches
 	for _, v := range c.values {
 		dr := diffRatio(unknown, v.normalizedValue)
@@ -300,10 +317,16 @@ func (c *Classifier) nearestMatch(unknown string) *pq.Queue {
 		if unknown == v.normalizedValue {
 			// We found an exact match.
 			pq.Push(&Match{Name: v.key, Confidence: 1.0, Offset: 0, Extent: len(unknown)})
+			if verifOn {
+				verifEmit("unlock", "mu", "values", "mode", "R")
+			}
 			c.muValues.RUnlock()
 			return pq
 		}
 		likely = append(likely, possibleMatch{value: v, diffRatio: dr})
+	}
+	if verifOn {
+		verifEmit("unlock", "mu", "values", "mode", "R")
 	}
 	c.muValues.RUnlock()
 	sort.Sort(likely)
@@ -446,21 +469,46 @@ func (c *Classifier) multipleMatch(unknown string) *pq.Queue {
 	m := newMatcher(normUnknown, c.threshold)
 
 	c.muValues.RLock()
+	if verifOn {
+		verifEmit("lock", "mu", "values", "mode", "R")
+		verifEmit("acc", "loc", "values", "kind", "R")
+	}
 	var kvals []*knownValue
 	for _, known := range c.values {
 		kvals = append(kvals, known)
+	}
+	if verifOn {
+		verifEmit("unlock", "mu", "values", "mode", "R")
 	}
 	c.muValues.RUnlock()
 
 	var wg sync.WaitGroup
 	wg.Add(len(kvals))
 	for _, known := range kvals {
+		if verifOn {
+			verifEmit("fork", "m", m, "key", known.key)
+		}
 		go func(known *knownValue) {
+			if verifOn {
+				verifEmit("start", "m", m, "key", known.key)
+				verifEmit("acc", "loc", "set:"+known.key, "kind", "R")
+			}
 			if known.set == nil {
 				k := searchset.New(known.normalizedValue, searchset.DefaultGranularity)
 				c.muValues.Lock()
+				if verifOn {
+					verifEmit("lock", "mu", "values", "mode", "W")
+					verifEmit("acc", "loc", "values", "kind", "R")
+					verifEmit("acc", "loc", "set:"+known.key, "kind", "W")
+				}
 				c.values[known.key].set = k
+				if verifOn {
+					verifEmit("unlock", "mu", "values", "mode", "W")
+				}
 				c.muValues.Unlock()
+			}
+			if verifOn {
+				verifEmit("acc", "loc", "set:"+known.key, "kind", "R")
 			}
 			m.findMatches(known)
 			wg.Done()
